@@ -338,12 +338,14 @@ fn creation_options(q: &Value) -> webauthn::CredentialCreationOptions {
                 ty: if q["params_ty"][i].as_bool().unwrap_or(true) { webauthn::PublicKeyCredentialType::PublicKey } else { webauthn::PublicKeyCredentialType::Unknown },
                 alg: iana::Algorithm::from_i64(a.as_i64().unwrap()).expect("known algorithm id"),
             }).collect(),
-            timeout: None,
+            // members the client does not act on ("timeout", "hints", "attestation", "attestationFormats", the selection's
+            // "attachment"): given as the JSON a relying party would send, absent when the scenario does not name them
+            timeout: q["timeout"].as_u64().map(|t| t as u32),
             exclude_credentials: descriptors_ty(&q["exclude"], &q["exclude_ty"]),
             authenticator_selection: if q["selection"].is_null() { None } else {
                 let s = &q["selection"];
                 Some(webauthn::AuthenticatorSelectionCriteria {
-                    authenticator_attachment: None,
+                    authenticator_attachment: serde_json::from_value(s["attachment"].clone()).unwrap_or(None),
                     resident_key: match s["rk"].as_str() {
                         Some("required") => Some(webauthn::ResidentKeyRequirement::Required),
                         Some("preferred") => Some(webauthn::ResidentKeyRequirement::Preferred),
@@ -354,9 +356,9 @@ fn creation_options(q: &Value) -> webauthn::CredentialCreationOptions {
                     user_verification: uv_req(&s["uv"]),
                 })
             },
-            hints: None,
-            attestation: Default::default(),
-            attestation_formats: None,
+            hints: serde_json::from_value(q["hints"].clone()).unwrap_or(None),
+            attestation: serde_json::from_value(q["attestation"].clone()).unwrap_or_default(),
+            attestation_formats: serde_json::from_value(q["attestation_formats"].clone()).unwrap_or(None),
             extensions: wext(&q["ext"]),
         },
     }
@@ -366,13 +368,13 @@ fn request_options(q: &Value) -> webauthn::CredentialRequestOptions {
     webauthn::CredentialRequestOptions {
         public_key: webauthn::PublicKeyCredentialRequestOptions {
             challenge: unhex(q["challenge"].as_str().unwrap()).into(),
-            timeout: None,
+            timeout: q["timeout"].as_u64().map(|t| t as u32),
             rp_id: if q["rp_id"].is_null() { None } else { Some(utf8(&q["rp_id"])) },
             allow_credentials: descriptors_ty(&q["allow"], &q["allow_ty"]),
             user_verification: uv_req(&q["uv"]),
-            hints: None,
-            attestation: Default::default(),
-            attestation_formats: None,
+            hints: serde_json::from_value(q["hints"].clone()).unwrap_or(None),
+            attestation: serde_json::from_value(q["attestation"].clone()).unwrap_or_default(),
+            attestation_formats: serde_json::from_value(q["attestation_formats"].clone()).unwrap_or(None),
             extensions: wext(&q["ext"]),
         },
     }
